@@ -1,5 +1,6 @@
 import Nervus.Driver.Util
 import Nervus.Model.SchedCapi
+import Nervus.Model.Generated.PubOrder
 /-!
   `capi_sched` stream (C09): the C-API auto-commit write entry point under forced schedules.
   Model-out comes from running the LTS of `Nervus.Model.SchedCapi` with what the extractor found in
@@ -73,6 +74,18 @@ def step (st : Option Db) (ws : List String) : Option Db × String × String × 
     match parseStmt a, parseStmt b, parkOf point with
     | some a, some b, some park => let (d', m, s) := raceOut d park a b; (some d', m, s, "")
     | _, _, _ => (st, "bad-op", "-", "")
+  | ["racek", a, _point], some d =>
+    -- `ndb_compact` on another thread while statement `a` is inside commit holding the writer lock.
+    -- Compaction reads the run list under the lock (regenerated flag): it waits, then merges `a`'s run too.
+    -- If the source reads the run list BEFORE the lock, the stale list lacks `a`'s run and the final
+    -- clear of ALL runs drops it (Nervus.Props.C03.C03_counterexample_stale_run_list): `a` has no effect.
+    match parseStmt a with
+    | some a =>
+      let want := a.toStmt.seq d
+      -- stale list: the run of `a` (property writes) is dropped; a node it created stays in the node table
+      let got := if Generated.compactRunsReadUnderLock then want else { d with a := want.a }
+      (some got, tok got ++ " | 0 0 1", tok want, "")
+    | none => (st, "bad-op", "-", "")
   | ["stress", n, k], some d =>
     match n.toNat?, k.toNat? with
     | some n, some k =>
